@@ -480,6 +480,22 @@ func (s *Stage) GetFileStatus(relPath string, sent time.Time) int {
 	return sts.ConfirmNone
 }
 
+// GetFileVersionStatus is GetFileStatus for one version (hash) of a file: what
+// is known about another version of the same name (an earlier one that was
+// delivered, say) says nothing about the version being asked about.
+func (s *Stage) GetFileVersionStatus(relPath, hash string, sent time.Time) int {
+	status := s.GetFileStatus(relPath, sent)
+	if status == sts.ConfirmNone || hash == "" {
+		return status
+	}
+	known := s.getFileHash(filepath.Join(s.rootDir, relPath))
+	if known != "" && known != hash {
+		s.logDebug("Stage:", relPath, "(other version)", known, hash)
+		return sts.ConfirmNone
+	}
+	return status
+}
+
 // Ready returns whether or not this gate keeper is ready to receive data
 func (s *Stage) Ready() bool {
 	s.readyLock.RLock()
